@@ -7,9 +7,10 @@ ENTRY = dict(
         corr_files=["Corr/C03Corr.v"],
         theorems=["c03_qubits", "c03_registers", "c03_instructions", "c03_instructions_kept", "c03_instructions_inserted",
                   "c03_semantics", "c03_cut_wires_as_moves", "c03_unwrap", "c03_semantics_cut_wires", "c03_markers_transparent", "c03_move_targets_fresh", "c03_expand", "c03_expand_letters",
+                  "c03_observable_reading", "c03_expectation_values", "c03_reconstructed_transport", "c03_cut_and_reconstruct_partial",
                   "c03_facts"],
         allowed_axioms=[],
-        facts=["value_error_sites"],
+        facts=["value_error_sites", "move_table_coeffs"],
         harness="c03",
         level_text="Unbounded theorems (any number of qubits, any instruction list, any number and interleaving of markers; induction over the "
                    "instruction list; only hypothesis: qubit indices in range and markers on one qubit) about the executable model of "
@@ -22,11 +23,19 @@ ENTRY = dict(
                    "Qubit object, all other positions end in |0>, all classical bits carry the same measurement terms, and each inserted Move "
                    "hits a wire that is still |0>; expand_observables puts qubit q's letter exactly on that final position. Closed under the "
                    "global context. The model is compared with cut_wires and _transform_cuts_to_moves on ~14000 generated cases per quick run. "
+                   "'The same expectation value for every expanded observable' is proved as: what the expanded observable reads (its non-identity "
+                   "letters with the wire terms under them) equals what the original reads, together with all classical bits and the phase - hence "
+                   "every value functional of these (c03_observable_reading, c03_expectation_values). "
                    "The LAST sentence of the property (cutting the Moves and reconstructing with exact weights returns the original values) is "
-                   "NOT proved here: it is tested end-to-end on 28 (quick) / 84 (thorough) small circuits per run (incl. 3+ partitions with the higher "
-                   "qubit's marker first, markers first/last on their wire with automatic labels; chk_e2e compares the values in Coq over Q, no model) "
-                   "(cut_wires -> expand_observables -> partition_problem -> generate(inf) -> ExactSampler -> reconstruct, judged against an "
-                   "independent simulation of the uncut circuit); its proof content is C01 (estimator) + C02 (the Move basis).",
+                   "proved only as a COMPOSITION (c03_cut_and_reconstruct_partial, c03_reconstructed_transport): C01's round-trip theorem "
+                   "instantiated with one Move coefficient list per marker (the table of decompositions.py, c03_facts; exact by C02's "
+                   "c02_move_exact) and Ev := value of the expanded observables on cut_wires' output, transported to the ORIGINAL observables on "
+                   "the ORIGINAL circuit; kappa <> 0 is discharged; the physics postulates P1, P2+P3 and C01's bookkeeping hypotheses (exact "
+                   "weights, coefficient list, result shapes, exact results) remain hypotheses; c03_ex_clause_f computes an instance (one Move, "
+                   "Bloch vector (2/7,3/7,6/7), observables Z,X,Y) in which P1 and P2+P3 hold with the Move coefficients. It is additionally "
+                   "tested end-to-end on 28 (quick) / 84 (thorough) small circuits per run (cut_wires -> expand_observables -> partition_problem "
+                   "-> generate(inf) -> ExactSampler -> reconstruct, judged against an independent simulation of the uncut circuit; chk_e2e "
+                   "compares the values in Coq over Q, no model).",
         level_note=STD_NOTE + "No axioms. 'Same expectation value' is proved as equality of symbolic wire terms (modelling assumption M1: every "
                    "compositional circuit semantics factors through the wire-history denotation); M1 is monitored, not proved: the contract "
                    "judge_accepts_clean_case runs an independent numpy branch simulator (all 15 two-qubit Paulis / all weight-1 Paulis / random "
@@ -50,6 +59,11 @@ ENTRY = dict(
             "every generated circuit is inside the property's quantifier (extended to 0 qubits and up to 5 markers), for which the property "
             "demands a result",
             "observation (outside the property, not checked): the result is built from an empty QuantumCircuit(), so circuit-level attributes "
-            "(name, metadata, global_phase) of the input are not carried over; expectation values do not depend on them",
+            "(name, metadata, global_phase) of the input are not carried over. Remark: a global phase multiplies the state vector by a unit "
+            "complex number and cancels in every <psi|P|psi>, so no expectation value (and no outcome statistic) depends on it; name and "
+            "metadata have no semantics",
+            "clause f (c03_cut_and_reconstruct_partial) inherits every hypothesis of c01_roundtrip_partial except kappa <> 0: P1, P2+P3 for "
+            "the circuit produced by cut_wires, exact weights (C04), coefficient list (C05), result shapes and the exact-results equation "
+            "(C06/C13); M1 enters as 'the value is a functional of (reading, classical bits, phase)'",
         ],
     )
